@@ -241,3 +241,4 @@ def run(ctx) -> None:
     id_correlation(ctx)
     dealer(ctx)
     lockset(ctx)
+    shared.argname_scope(ctx, ('forml.runtime._service',), floor=2)
